@@ -139,6 +139,8 @@ func (c muxCfg) pset(kind string, p int) paramSet {
 			return vp9Key(1, false, false, true, p == 0, 1920, 804)
 		case "range":
 			return vp9Key(0, false, p == 1, true, true, 1920, 804)
+		case "width+fullrange": // both sets full range, profile 1 with 4:4:4: every field differs from the type's zero value
+			return vp9Key(1, false, true, false, false, []int{1920, 1280}[p], 804)
 		}
 		ps := vp9Params[p]
 		ps.profile, ps.bitDepth, ps.chroma = 0, 8, 1
@@ -408,6 +410,8 @@ type muxInst struct {
 	dir     string
 	encErrs []string
 	vparam  int // parameter-set version currently in use by the writer (video)
+	// onEncodeError, if set, runs inside the user's OnEncodeError callback (on the writer goroutine)
+	onEncodeError func(err error)
 }
 
 func newMux(cfg muxCfg, dir string) (*muxInst, error) {
@@ -422,7 +426,12 @@ func newMux(cfg muxCfg, dir string) (*muxInst, error) {
 		SegmentMinDuration: time.Duration(cfg.SegMinMS) * time.Millisecond,
 		PartMinDuration:    time.Duration(cfg.PartMS) * time.Millisecond,
 		SegmentMaxSize:     cfg.MaxSize,
-		OnEncodeError:      func(err error) { mi.encErrs = append(mi.encErrs, err.Error()) },
+		OnEncodeError: func(err error) {
+			mi.encErrs = append(mi.encErrs, err.Error())
+			if mi.onEncodeError != nil {
+				mi.onEncodeError(err)
+			}
+		},
 	}
 	if cfg.Disk {
 		mi.m.Directory = dir
